@@ -142,6 +142,8 @@ def install(w):
     # ExponentPart :: [eE] [+-]? Digit+
     # stated as local facts over the span [start, end) of the token (B the body, I0 the offset of the
     # first digit); together they admit exactly the strings of the grammar above
+    w.define("BSLineBegin", "start, line_start, block_lines",
+             "ite(len(block_lines) == 0, start + 3, line_start)")
     w.define("NumI0", "b, s", "ite(cp(b, s) == 45, s + 1, s)")
     w.define("IsE", "c", "c == 69 or c == 101")
     w.define("IsSign", "c", "c == 43 or c == 45")
@@ -268,6 +270,16 @@ def install(w):
                                         "body_length == len(body)",
                                         "not midCRLF(body, position)",
                                         "len(block_lines) == nlt(body, position) - nlt(body, start)",
+                                        # content accounting of the current raw line (CB: offset where
+                                        # its content begins): every source character scanned so far
+                                        # is in current_line or in the pending chunk, except the one
+                                        # backslash of each escaped triple quote (4 source characters
+                                        # give 3 of content) - no chunk is lost or taken twice
+                                        "BSLineBegin(start, line_start, block_lines) <= chunk_start <= position",
+                                        "len(current_line) + (position - chunk_start)"
+                                        " <= position - BSLineBegin(start, line_start, block_lines)",
+                                        "4 * (len(current_line) + (position - chunk_start))"
+                                        " >= 3 * (position - BSLineBegin(start, line_start, block_lines))",
                                         "line_start == lls(body, position)",
                                         "self.line == 1 + nlt(body, start)",
                                         "self.line_start == lls(body, start)"],
@@ -306,6 +318,3 @@ def install(w):
                           "variant": "body_length - end"}},
                props={"C01", "C09", "C10"})
 
-    # block string helper used by read_block_string (verified separately for C08)
-    w.contract("graphql.language.block_string.dedent_block_string_lines",
-               params={"lines": "list:str"}, returns="list:str", ensures=[], props={"C01", "C08"})
